@@ -66,7 +66,8 @@ def schema(draw, depth=2):
     if k == "TSD":
         return ("TSD", draw(st.sampled_from(["int", "str"])), draw(schema(depth - 1)))
     if k == "TSL":
-        return ("TSL", draw(schema(depth - 1)), draw(st.integers(1, 3)))
+        # size 0 = a dynamic (unsized) list: a size VARIABLE binds to 0 for it, a LITERAL size 0 in a pattern means "any size"
+        return ("TSL", draw(schema(depth - 1)), draw(st.sampled_from([0, 1, 2, 3, 3])))
     n = draw(st.integers(1, 2))
     return ("TSB", tuple((f"f{i}", draw(schema(depth - 1))) for i in range(n)))
 
@@ -158,6 +159,8 @@ def has_special(p):
         return True
     if k == "tsd":
         return has_special(p[2])
+    if k == "tsl" and p[2] == 0:
+        return True      # the unsized-list wildcard takes no part in the substitution-instance order
     if k in ("tsl", "tslv", "ref"):
         return has_special(p[1])
     if k == "tsb":
@@ -237,7 +240,7 @@ def unify(p, s, b):
     if k == "tsd":
         return s[0] == "TSD" and sc(p[1], s[1]) and unify(p[2], s[2], b)
     if k == "tsl":
-        return s[0] == "TSL" and s[2] == p[2] and unify(p[1], s[1], b)
+        return s[0] == "TSL" and (p[2] == 0 or s[2] == p[2]) and unify(p[1], s[1], b)
     if k == "tslv":
         if s[0] != "TSL":
             return False
